@@ -4,23 +4,23 @@ use crate::common::*;
 
 pub fn run(ctx: &Ctx) -> Outcome {
     let mut out = Outcome::default();
-    let d = ctx.tier.pick(6, 9);
+    let d = ctx.tier.pick(7, 9);
     run_and_report(ctx, &tx_window(ctx.tier, true, 10, d), &mut out);
     run_and_report(ctx, &tx_window(ctx.tier, false, 10, d), &mut out);
-    run_and_report(ctx, &tx_slowstart(ctx.tier, ctx.tier.pick(7, 9)), &mut out);
-    run_and_report(ctx, &tx_window_mtu(ctx.tier, ctx.tier.pick(6, 8)), &mut out);
-    run_and_report(ctx, &tx_slowstart_mtu(ctx.tier, ctx.tier.pick(6, 8)), &mut out);
-    run_and_report(ctx, &rtx(ctx.tier, 5, true, ctx.tier.pick(6, 8)), &mut out);
-    run_and_report(ctx, &rtx_after_recovery_rto(ctx.tier, ctx.tier.pick(6, 8)), &mut out);
+    run_and_report(ctx, &tx_slowstart(ctx.tier, ctx.tier.pick(8, 9)), &mut out);
+    run_and_report(ctx, &tx_window_mtu(ctx.tier, ctx.tier.pick(7, 8)), &mut out);
+    run_and_report(ctx, &tx_slowstart_mtu(ctx.tier, ctx.tier.pick(7, 8)), &mut out);
+    run_and_report(ctx, &rtx(ctx.tier, 5, true, ctx.tier.pick(7, 8)), &mut out);
+    run_and_report(ctx, &rtx_after_recovery_rto(ctx.tier, ctx.tier.pick(7, 8)), &mut out);
     // the same sender with the congestion controller behind its tracing wrapper, over IPv6, and at the wrap
     {
-        let mut t = tx_slowstart(ctx.tier, ctx.tier.pick(6, 8));
+        let mut t = tx_slowstart(ctx.tier, ctx.tier.pick(7, 8));
         t.name = "tx-slowstart-cc-tracing-v6".into();
         t.cfg.cc_tracing = true;
         t.cfg.ipv6 = true;
         t.cfg.link_mtu += 20; // IPv6 header is 20 bytes longer: same payload size
         run_and_report(ctx, &t, &mut out);
-        let mut w = tx_window(ctx.tier, true, 10, ctx.tier.pick(6, 8));
+        let mut w = tx_window(ctx.tier, true, 10, ctx.tier.pick(7, 8));
         w.name = "tx-window-wrap".into();
         w.cfg.our_isn = 65_533;
         w.cfg.cc_tracing = true;
